@@ -180,11 +180,11 @@ def i6_corpus(seed, tier):
             L += 1
         if nT > 8:
             L = 2 if g.get('big') else 1
-        ins = [genrun.enc(s) for s in gram.all_strings(nT, L) if all(t < 25 for t in s)]
+        ins = [genrun.enc(s) for s in gram.all_strings(nT, L) if all(t < 24 for t in s)]
         sents = set()
         for _ in range(40 if tier == 'quick' else 150):
             s = gram.random_sentence(rnd, g, maxdepth=rnd.randint(3, 9), maxlen=24)
-            if s is not None and all(t < 25 for t in s):
+            if s is not None and all(t < 24 for t in s):
                 sents.add(genrun.enc(s))
         sents = sorted(sents)[:25 if tier == 'quick' else 80]
         muts = set()
@@ -194,9 +194,9 @@ def i6_corpus(seed, tier):
                 muts.add(s[:k] + s[k + 1:])
                 muts.add(s[:k] + chr(97 + rnd.randrange(nT)) + s[k:])
                 muts.add(s[:k] + chr(97 + rnd.randrange(nT)) + s[k + 1:])
-        allins = list(dict.fromkeys(ins + sents + sorted(muts) + ['z', 'az', 'za']))
+        allins = list(dict.fromkeys(ins + sents + sorted(muts) + ['z', 'az', 'za', 'y', 'ay']))
         jl = [('run', x) for x in allins]
-        pool = allins[:60] + sents
+        pool = allins[:60] + sents + ['y', 'ay']
         for _ in range(8 if gname.startswith('opt') else (3 if tier == 'quick' else 8)):
             jl.append(('hist', ','.join(rnd.choice(pool) for _ in range(rnd.randint(2, 6)))))
         for x in (sents[:3] + ins[1:3]):
@@ -207,6 +207,9 @@ def i6_corpus(seed, tier):
         for _ in range(3 if tier == 'quick' else 8):
             a, b = rnd.choice(sents or pool), rnd.choice(sents or pool)
             jl.append(('nestr', '%s,%s,%d' % (a, b, rnd.randint(1, max(1, len(a))))))
+        for _ in range(2 if tier == 'quick' else 5):
+            a, b = rnd.choice(sents or pool), rnd.choice(sents or pool)
+            jl.append(('tracen', '%s,%s,%d' % (a, b, rnd.randint(1, max(1, len(a) // 2 + 1)))))
         jobs[gname] = list(dict.fromkeys(jl))
     return gs, jobs
 
@@ -905,7 +908,7 @@ def run_C06(ctx):
                 if mode != 'run':
                     continue
                 ir = genrun.parse_result(raw)
-                if ir['kind'] in ('A', 'L'):
+                if ir['kind'] in ('A', 'L', 'T'):
                     continue
                 ctx.evaluations += 1
                 ok_channel = (ir['kind'] == 'E' and ir['msg'].startswith('Grammar error')) if vn != 'ts' else (ir['kind'] == 'N' and 'Grammer error' in ir['msg'])
